@@ -1657,10 +1657,22 @@ def check_c19_enc(scn):
     obj = _build_target(scn, mk_rows(0, init))
     obj.calculate()
     maybe_remove(obj, 0)
+    bufs = {}
     for j, (a, b) in enumerate(steps_of(scn)[1:]):
         enc, single = encs[j % len(encs)]
         payload = encode_chunk(stream[a:b], enc, single, stamps=[c.timestamp for c in mk_rows(a, b)] if sub else None,
                                extra=[n for n in ((list(obj.indicators) if target == "hexital" else [obj.name]) + ["SMA_3"])])
+        if scn.get("reuse_buf") and isinstance(payload, (dict, list)) and enc != "candle":
+            # the caller keeps ONE container object as its row buffer and refills it in place for every append: the candle data is what
+            # the container holds at the moment of the call, whichever object carries it
+            buf = bufs.setdefault(type(payload).__name__, payload)
+            if buf is not payload:
+                if isinstance(buf, dict):
+                    buf.clear()
+                    buf.update(payload)
+                else:
+                    buf[:] = payload
+                payload = buf
         flat_first = enc == "list_ts_first" and single and (b - a) == 1 and stream[a][0] is not None
         keep = list(payload) if (enc == "candle" and isinstance(payload, list)) else deepcopy(payload)
         try:
@@ -1720,6 +1732,8 @@ def gen_c19_enc(rng, size=30):
         encs = [[rng.choice(pool), rng.random() < 0.6] for _ in chunks]
     scn = {"check": "c19.enc", "target": target, "hx": cfg, "members": members, "keep_members": True, "stream": stream,
            "init": init, "chunks": chunks, "encs": encs}
+    if rng.random() < 0.25:
+        scn["reuse_buf"] = True
     if target == "hexital" and len(members) >= 1 and rng.random() < 0.25:
         scn["remove_at"] = [rng.randrange(len(chunks)), rng.randrange(len(members))]
     if target == "hexital" and with_ts and cfg.get("life") is None and not cfg.get("tf") and rng.random() < 0.25:
